@@ -243,17 +243,21 @@ class Check:
         wall = time.time() - self.t0
         for fid, (f, n) in sorted(self.known_hits.items()):
             print("KNOWN-FINDING: property=%s %s [%s] (%d occurrence(s) this run)" % (self.pid, f["what"], fid, n))
-        rdir = workdir(self.pid, "replay")
-        shown = 0
-        paths = []
-        for i, (sig, desc, rep) in enumerate(self.violations[:20]):
+        rdir = workdir(self.pid, "replay", clean=True)
+        # one replay file / VIOLATION line per distinct signature (first occurrence), capped
+        groups = {}
+        for sig, desc, rep in self.violations:
+            groups.setdefault(sig, []).append((desc, rep))
+        for i, (sig, items) in enumerate(sorted(groups.items())[:40]):
+            desc, rep = items[0]
             path = os.path.join(rdir, "viol_%02d.json" % i)
             with open(path, "w") as f:
-                json.dump({"property": self.pid, "signature": sig, "description": desc, "seed": seed(), "replay": rep}, f, indent=1)
-            paths.append(path)
+                json.dump({"property": self.pid, "signature": sig, "description": desc, "occurrences": len(items),
+                           "seed": seed(), "replay": rep}, f, indent=1)
             print("VIOLATION property=%s replay=%s" % (self.pid, path))
-            print("  " + sig + " :: " + desc[:400])
-            shown += 1
+            print("  [%d occurrence(s)] %s :: %s" % (len(items), sig, desc[:400]))
+        if len(groups) > 40:
+            print("  ... %d further distinct violation signatures not listed" % (len(groups) - 40))
         cov = {
             "states": int(self.states),
             "transitions": int(self.transitions),
